@@ -59,6 +59,26 @@ fn weights(g: &mut Sm64, len: usize) -> Vec<f64> {
             w[i] = 1.0;
         }
     }
+    // count-like weights of astronomic size: every weight an integer below 2^64, their total beyond it
+    if len > 1 && g.chance(0.06) {
+        return (0..len).map(|_| if g.chance(0.3) { 0.0 } else { (g.uniform(1e18, 1.8e19)).floor() }).collect::<Vec<f64>>().into_iter().enumerate().map(|(i, x)| if i == 0 && x == 0.0 { 2e18 } else { x }).collect();
+    }
+    // categories much narrower than 2^-24 (but far wider than the float type's spacing near one)
+    if len > 2 && g.chance(0.1) {
+        let mut v: Vec<f64> = w.clone();
+        let mx = v.iter().cloned().fold(0.0f64, f64::max).max(1e-300);
+        for x in v.iter_mut() {
+            *x /= mx;
+        }
+        for _ in 0..g.range(1, 3) {
+            let i = g.below(len);
+            v[i] = g.log_uniform(1e-12, 1e-8);
+        }
+        if v.iter().all(|x| *x < 1e-6) {
+            v[0] = 1.0;
+        }
+        return v;
+    }
     // sometimes one weight so small that its probability is a subnormal number of the float type
     // (f32: ratio below 1e-38; f64: below 1e-308; positive all the same)
     if len > 1 && g.chance(0.1) && w.iter().filter(|x| **x > 0.0).count() >= 2 {
@@ -168,6 +188,35 @@ where
             }
         }
     }
+    // the midpoint of every category's interval (exactly representable targets for narrow categories)
+    {
+        let mut lo = F::zero();
+        for p in &cat.probs {
+            let hi = lo + *p;
+            if *p > F::zero() {
+                let mid = (lo.to_f64().unwrap() + hi.to_f64().unwrap()) / 2.0;
+                let k = (mid * steps as f64).floor();
+                if k >= 0.0 && (k as u64) < steps {
+                    ks.push(k as u64);
+                }
+            }
+            lo = hi;
+        }
+    }
+    let inverse_cdf = |u: F| -> (usize, bool) {
+        let mut cum = F::zero();
+        let mut near = false;
+        for (i, p) in cat.probs.iter().enumerate() {
+            cum += *p;
+            if (u.to_f64().unwrap() - cum.to_f64().unwrap()).abs() <= 8.0 * F::eps() {
+                near = true;
+            }
+            if u < cum {
+                return (i, near);
+            }
+        }
+        (cat.probs.iter().rposition(|p| *p > F::zero()).unwrap_or(len - 1), true)
+    };
     let grid = if ctx.thorough { 4096u64 } else { 1024 };
     let grid_start = ks.len();
     for i in 0..grid {
@@ -197,6 +246,16 @@ where
         if s >= len {
             rep.violation(&format!("{sig} sample-out-of-range"), mon, case, json!({"cfg": wj(), "u": u, "sample": s}));
             return;
+        }
+        {
+            // the sample is the inverse cdf of the stored probabilities at the variate drawn
+            let uf: F = F::peek(&F::craft(*kk, 0));
+            let (want, near) = inverse_cdf(uf);
+            if uf.to_f64().unwrap() == u && !near && s != want && probs[s] > 0.0 {
+                rep.violation(&format!("{sig} sample-is-not-the-inverse-cdf-of-probs-at-the-variate"), mon, case,
+                    json!({"cfg": wj(), "u": u, "sample": s, "expected": want, "prob_of_expected": probs[want]}));
+                return;
+            }
         }
         if !(probs[s] > 0.0) {
             let pos = if s == 0 { "first" } else if s == len - 1 { "last" } else { "interior" };
